@@ -176,6 +176,7 @@ package app
 //@   assert_at SetOffline#1 C17.filter_ok [C17]: resultof("CanSetOffline", 1) && callrecv == node
 //@   assert_at SetOffline#2 C17.rate [C17]: time_now - lastShutdownNodeTime > app.config.OfflineModeEnableInterval && e_UpdateLastShutdown == old(e_UpdateLastShutdown) + 1 && callrecv == node
 //@   assert_after SetOffline#1 C17.pending_inc_pre [C17]: pendingOfflineByAZ[azSpec(host, app.config.OfflineModeAZSeparator)] == old(pendingOfflineByAZ[azSpec(host, app.config.OfflineModeAZSeparator)])
+//@   ensures C17.pending_counts_success [C17]: reached("SetOffline", 1) && resultof("SetOffline", 1) == nil ==> pendingOfflineByAZ[azSpec(host, app.config.OfflineModeAZSeparator)] == old(pendingOfflineByAZ[azSpec(host, app.config.OfflineModeAZSeparator)]) + 1
 //@   ensures C17.pending_inc [C17]: pendingOfflineByAZ[azSpec(host, app.config.OfflineModeAZSeparator)] == old(pendingOfflineByAZ[azSpec(host, app.config.OfflineModeAZSeparator)]) || (pendingOfflineByAZ[azSpec(host, app.config.OfflineModeAZSeparator)] == old(pendingOfflineByAZ[azSpec(host, app.config.OfflineModeAZSeparator)]) + 1 && e_SetOffline > old(e_SetOffline) && resultof("SetOffline", 1) == nil)
 
 //@ func (*app.App).repairMasterOfflineMode
